@@ -73,7 +73,7 @@ def _mk_cg(c, name, cps, cross, tag):
     from vsc.model.coverpoint_model import CoverpointModel
     from vsc.model.coverpoint_cross_model import CoverpointCrossModel
     from vsc.model.coverage_options_model import CoverageOptionsModel
-    cg = CovergroupModel(name)
+    cg = CovergroupModel("cls_" + name if tag == "t" else name)         # typename (the class) differs from the type's own name
     cg.name = name
     allc = []
     for ci, sizes in enumerate(cps):
@@ -149,7 +149,8 @@ def c_save(c, cps, ninst, cross):
     top = [s for s in db.children if s.kind == "inst"]
     c.check("one default design-unit / instance scope is created", len(top) == 1)
     cgs = top[0].children if top else []
-    c.check("one covergroup scope per type", [s.kind for s in cgs] == ["covergroup"] and cgs[0].name == "cg_t")
+    c.check("one covergroup scope per type, under the type's own name (not the class name, which several types can share)",
+            [s.kind for s in cgs] == ["covergroup"] and cgs[0].name == "cg_t")
     tscope = cgs[0]
     isc = [s for s in tscope.children if s.kind == "coverinstance"]
     c.check("one cover-instance scope per instance of the type, with distinct names",
